@@ -1,7 +1,7 @@
 """C11 - predict_rank ranks agree with its probabilities and complement predict_draw."""
 import math
 
-from ..predprobe import gen_pred_case, call_pred, in01, alias_clause
+from ..predprobe import gen_pred_case, call_pred, in01, alias_clause, scribble
 from ..rateprobe import exc_detail
 from ..util import KIND
 from ..refmodel import ref_predict
@@ -95,6 +95,8 @@ def probe_pr(ctx, payload):
             ctx.violation("input-order", "pr", payload, dict(team=i, got=ps[i], want=float(rr[i]), result=res), model, reg)
             break
     ctx.case(case, ties > 0 or k >= 3)
+    res = list(res)
+    scribble(o.res)  # the returned list belongs to the caller
     if (ties or k >= 3) and len(ctx.samples) < 3 and ctx.rng.random() < 0.01:
         ctx.sample(dict(case=case, predict_rank=res))
 
